@@ -1,6 +1,6 @@
 (* Props/C04.v — C04: identifier resolution in the JS tree follows ECMAScript scoping.
    Statements only; each is closed by [exact] of a lemma proved in JsScope/*.v. *)
-From Verif Require Import Common.Base JsScope.Model JsScope.Spec JsScope.Proofs.
+From Verif Require Import Common.Base JsScope.Model JsScope.Spec JsScope.HeapLemmas JsScope.Proofs JsScope.Main.
 
 (* declare_twice_rejected (needed by C03), in the three forms Declare implements.
    (1) a parameter / let / const / class / catch-parameter declaration of a name the scope already
@@ -38,3 +38,38 @@ Theorem declare_var_through_block_rejected :
     declare st s decl x = Ok (st, None).
 Proof. exact declare_var_through_block_rejected_proof. Qed.
 Print Assumptions declare_var_through_block_rejected.
+
+(* resolution_correct, for the fragment {Block, anonymous Func with plain parameters, Decl var / function /
+   let-const-class / parameter, Ref} ([core]): arbitrary nesting, shadowing at every level, use before
+   declaration, hoisting of var/function through nested and sibling blocks, closures that use names declared
+   later.  For every such program without redeclaration error ([program_ok]) and fewer than 2^16 identifier
+   occurrences: the model, run on the parser's events for the program ([run_program] = prun on
+   [EEnter true :: linearise p]), does not reject, panic or run out of fuel, and
+     (1) two occurrences are in the same Var after following Link iff the declarative resolver
+         ([spec_resolve]) gives them the same declaration;
+     (2) an occurrence bound nowhere is an undeclared variable (Decl = NoDecl) of the outermost scope's
+         Undeclared list, under its own name;
+     (3) Uses of the Var of an occurrence is the number of occurrences that share it.
+   NOT covered by this theorem (the name says _partial): loop heads, parameter default values (NumArgUses),
+   catch clauses, classes, arrow functions and the arrow cover grammar (UndeclareScope), function-expression
+   names; these are checked by the correspondence runs and the oracle only, and /repo deviates from
+   ECMAScript on several of them (KNOWN_FINDINGS.txt, keys c04-es:... and c04-reject:...).
+   Example (hypotheses satisfiable, non-trivial partition): Main.example_hyps, Main.example_partition. *)
+Theorem resolution_correct_partial :
+  forall p : prog,
+    core p = true -> program_ok p = true -> Z.of_nat (occurrences p) < 65536 ->
+    exists ps,
+      run_program p = Running ps /\
+      let st := pst ps in
+      let vs := map (root_of st) (rev (plog ps)) in
+      let ts := spec_resolve p in
+      length vs = length ts /\
+      (forall i j, (i < length vs)%nat -> (j < length vs)%nat ->
+         (nth i vs O = nth j vs O <-> nth i ts (TGlobal 0) = nth j ts (TGlobal 0))) /\
+      (forall i x, (i < length vs)%nat -> nth i ts (TGlobal 0) = TGlobal x ->
+         In (nth i vs O) (sundeclared (sc_of st O)) /\ vdecl (vget st (nth i vs O)) = NoDecl
+         /\ vname (vget st (nth i vs O)) = x) /\
+      (forall i, (i < length vs)%nat ->
+         vuses (vget st (nth i vs O)) = Z.of_nat (count_occ Nat.eq_dec vs (nth i vs O))).
+Proof. exact resolution_correct_core. Qed.
+Print Assumptions resolution_correct_partial.
